@@ -202,6 +202,69 @@ with list_cases (fuel : nat) (k : listkind) (start : token) (ts : toks) (acc : l
   else err_tok (cur ts1) "invalid token after poryswitch case"
   end.
 
+
+(* BEGIN UNFOLD list_value *)
+Lemma list_value_unfold f (k : listkind) (multi : bool) (ts : toks) (acc : list token) :
+  list_value (S f) k multi ts acc =
+
+  let closing := match k with LMov c => c | LMart => RBRACE end in
+  if curis closing ts then Ok (acc, ts) else
+  let continue (acc' : list token) (ts' : toks) :=
+      if multi then list_value f k multi ts' acc' else Ok (acc', ts') in
+  if curis PORYSWITCH ts then
+    let start := cur ts in
+    do (sc, sv, ts1) <- poryswitch_header ts;
+    do (cases, ts2) <- list_cases f k (cur ts1) ts1 [];
+    match assoc cases (sval sv) with
+    | Some items => continue (acc ++ items) (adv ts2)
+    | None => match assoc cases (t "_") with
+              | Some items => continue (acc ++ items) (adv ts2)
+              | None => if env_errors then err_tok start "no poryswitch case found" else continue acc (adv ts2)
+              end
+    end
+  else
+    match k with
+    | LMov _ =>
+        if curis IDENT ts then
+          let mv := cur ts in
+          let ts1 := adv ts in
+          if curis MUL ts1 then
+            let ts2 := adv ts1 in
+            if negb (curis INT ts2) then err_tok (cur ts2) "expected mulplier number for movement command" else
+            match go_parse_int (tlit (cur ts2)) with
+            | None => err_tok (cur ts2) "invalid movement mulplier integer"
+            | Some n => if (n <=? 0)%Z then err_tok (cur ts2) "movement mulplier must be a positive integer"
+                        else if (n >? 9999)%Z then err_tok (cur ts2) "movement mulplier is too large"
+                        else continue (acc ++ repeat_tok (Z.to_nat n) mv) (adv ts2)
+            end
+          else continue (acc ++ [mv]) ts1
+        else if curis COMMA ts then continue acc (adv ts)
+        else err_tok (cur ts) "expected movement command"
+    | LMart =>
+        if curis IDENT ts then continue (acc ++ [cur ts]) (adv ts)
+        else err_tok (cur ts) "expected mart item"
+    end.
+Proof. reflexivity. Qed.
+
+Lemma list_cases_unfold f (k : listkind) (start : token) (ts : toks) (acc : list (text * list token)) :
+  list_cases (S f) k start ts acc =
+
+  if curis RBRACE ts then Ok (acc, ts) else
+  if curis EOF ts then err_tok start "missing closing curly braces for poryswitch statement" else
+  if negb (curis IDENT ts) && negb (curis INT ts) then err_tok (cur ts) "invalid poryswitch case" else
+  let cv := tlit (cur ts) in
+  let ts1 := adv ts in
+  if curis COLON ts1 || curis LBRACE ts1 then
+    let brace := curis LBRACE ts1 in
+    let k' := match k with LMov c => if brace then LMov RBRACE else LMov c | LMart => LMart end in
+    do (items, ts2) <- list_value f k' brace (adv ts1) [];
+    if brace then
+      if negb (curis RBRACE ts2) then err_tok (cur ts2) "missing closing curly brace for poryswitch case"
+      else list_cases f k start (adv ts2) ((cv, items) :: acc)
+    else list_cases f k start ts2 ((cv, items) :: acc)
+  else err_tok (cur ts1) "invalid token after poryswitch case".
+Proof. reflexivity. Qed.
+(* END UNFOLD *)
 Definition movement_value (fuel : nat) (closing : toktype) (multi : bool) (ts : toks) (acc : list token) :=
   list_value fuel (LMov closing) multi ts acc.
 Definition mart_value (fuel : nat) (multi : bool) (ts : toks) (acc : list token) :=
@@ -441,6 +504,45 @@ with right_side (fuel : nat) (left : bexp) (single negated : bool) (script : tex
   end.
 
 
+(* BEGIN UNFOLD bool_expr *)
+Lemma bool_expr_unfold f (single negated : bool) (script : text) (ts : toks) :
+  bool_expr (S f) single negated script ts =
+
+  let nested := peekis LPAREN ts in
+  let negnested := peekis NOT ts && is LPAREN (pk 2 ts) in
+  if nested || negnested then
+    let ts1 := adv ts in
+    let open := cur ts1 in
+    let '(ts2, nn) := if nested then (ts1, negated) else (adv ts1, negb negated) in
+    do (e, imp, ts3) <- bool_expr f false nn script ts2;
+    if negb (curis RPAREN ts3) then err_range open (cur ts3) "missing closing ')' for nested boolean expression" else
+    if negb single && (peekis AND ts3 || peekis OR ts3) then
+      do (e', imp', ts4) <- right_side f e single negated script (adv ts3);
+      Ok (e', impadd imp imp', ts4)
+    else Ok (e, imp, adv ts3)
+  else
+    do (l, imp, ts1) <- leaf_expr f script ts;
+    let l' := if negated then neg_leaf l else l in
+    if single then Ok (BLeaf l', imp, ts1)
+    else do (e', imp', ts2) <- right_side f (BLeaf l') single negated script ts1;
+         Ok (e', impadd imp imp', ts2).
+Proof. reflexivity. Qed.
+
+Lemma right_side_unfold f (left : bexp) (single negated : bool) (script : text) (ts : toks) :
+  right_side (S f) left single negated script ts =
+
+  if curis AND ts then
+    do (r, imp, ts1) <- bool_expr f true negated script ts;
+    let grouped := BBin (if negated then BOr else BAnd) left r in
+    do (e', imp', ts2) <- right_side f grouped single negated script ts1;
+    Ok (e', impadd imp imp', ts2)
+  else if curis OR ts then
+    do (r, imp, ts1) <- bool_expr f false negated script ts;
+    Ok (BBin (if negated then BAnd else BOr) left r, imp, ts1)
+  else Ok (left, imp0, ts).
+Proof. reflexivity. Qed.
+(* END UNFOLD *)
+
 (* ---------- statements ---------- *)
 Definition try_label (ts : toks) : option (stmt * toks) :=
   if peekis COLON ts then Some (SLabel (tlit (cur ts)) false (cur ts), adv ts)
@@ -676,7 +778,8 @@ with parse_pory_stmts (fuel : nat) (script : text) (bs cs : list nat) (multi : b
     else Ok (acc ++ ss, impadd imp imp', ts2)
   end.
 
-(* BEGIN UNFOLD *)
+
+(* BEGIN UNFOLD parse_stmt *)
 Lemma parse_stmt_unfold f (script : text) (bs cs : list nat) (ts : toks) :
   parse_stmt (S f) script bs cs ts =
 
